@@ -50,18 +50,18 @@ def evaluate(item, skip_tests=False, all_props=False):
         patch = os.path.join(pdir, 'patch.diff')
         demo = next((os.path.join(pdir, f) for f in ('demo.py', 'test_demo.py') if os.path.exists(os.path.join(pdir, f))), None)
         if demo:
-            rc, out = sh(f'{PY} {demo}', cwd=wt, timeout=300)
+            rc, out = sh(f'{PY} {demo}', cwd=wt, timeout=300, env={'PYTHONPATH': wt})
             res['demo_clean'] = rc
         rc, out = sh(f'git apply {patch}', cwd=wt)
         if rc:
             res['error'] = 'apply: ' + out[-300:]
             return res
         if not skip_tests:
-            rc, out = sh(f'{PY} -m pytest -q -p no:cacheprovider --timeout=900 -x', cwd=wt, timeout=900)
+            rc, out = sh(f'{PY} -m pytest -q -p no:cacheprovider --timeout=900 -x', cwd=wt, timeout=900, env={'PYTHONPATH': wt})
             m = re.search(r'(\d+) passed', out)
             res['tests'] = f'{m.group(1)} passed' if m and rc == 0 else f'rc={rc} ' + out[-200:].replace('\n', ' | ')
         if demo:
-            rc, out = sh(f'{PY} {demo}', cwd=wt, timeout=300)
+            rc, out = sh(f'{PY} {demo}', cwd=wt, timeout=300, env={'PYTHONPATH': wt})
             res['demo_seeded'] = rc
             res['demo_out'] = [l for l in out.splitlines() if l.strip()][-3:]
         props = [pid]
